@@ -1,8 +1,8 @@
 #!/bin/bash
-# tools/import_refac.sh Cxx [outdir-suffix] — collect the refactoring patches a sub-agent left in /tmp/refac/Cxx-out<suffix> and drop its worktree
-P=$1; SUF=${2:-}
+# tools/import_refac.sh Cxx [outdir] — collect the refactoring patches a sub-agent left in /tmp/refac/<outdir> (default Cxx-out) and drop its worktree
+P=$1; OUT=${2:-$P-out}
 mkdir -p /verif/refactorings/$P
-cp /tmp/refac/$P-out$SUF/$P*.patch.diff /tmp/refac/$P-out$SUF/$P*.notes.md /verif/refactorings/$P/ 2>/dev/null
+cp /tmp/refac/$OUT/$P*.patch.diff /tmp/refac/$OUT/$P*.notes.md /verif/refactorings/$P/ 2>/dev/null
 git -C /repo worktree remove --force /tmp/refac/$P 2>/dev/null
 rm -rf /tmp/refac/$P
 ls /verif/refactorings/$P | wc -l
